@@ -91,6 +91,25 @@ theorem facts_fork_flags_and_globals :
       ["src/storage/account/accountdb_eth.go:loadContractCache:rpgContractAddress",
        "src/storage/account/init.go:Init:accountLog"] := by decide
 
+/-- the batch objects of `src/middleware/db` as `Model.TrieDB.BatchSt` transcribes them:
+    `Put` appends the pair and adds `len(value)` (not the key) to `size`, `ValueSize` returns
+    `size`, `Reset` clears the pairs and `size`, `Write` hands the pairs to the store in one call
+    (`leveldb.DB.Write` of one `leveldb.Batch`; one locked loop for the in-memory store). -/
+theorem facts_batch_objects :
+    TrieDbFacts.batchObjectFacts =
+      ["ldbBatch.Put: b.b.Put(key, value) ; b.size += len(value) ; return nil",
+       "ldbBatch.ValueSize: return b.size",
+       "ldbBatch.Write: return b.db.Write(b.b, nil)",
+       "ldbBatch.Reset: b.b.Reset() ; b.size = 0",
+       "prefixBatch.Put: b.b.Put(generateKey(key, b.prefix), value) ; b.size += len(value) ; return nil",
+       "prefixBatch.ValueSize: return b.size",
+       "prefixBatch.Write: return b.db.Write(b.b, nil)",
+       "prefixBatch.Reset: b.b.Reset() ; b.size = 0",
+       "memBatch.Put: b.writes = append(b.writes, kv{common.CopyBytes(key), common.CopyBytes(value)}) ; b.size += len(value) ; return nil",
+       "memBatch.ValueSize: return b.size",
+       "memBatch.Write: b.db.lock.Lock() ; defer b.db.lock.Unlock() ; for _, kv := range b.writes { b.db.db[string(kv.k)] = kv.v } ; return nil",
+       "memBatch.Reset: b.writes = b.writes[:0] ; b.size = 0"] := by rfl
+
 /-! ## which accounts a state commit may change -/
 
 open Rangers.Model.StateCommit in
